@@ -23,7 +23,10 @@ a session" half of R3) is registered under C18 as its R5.
 
 Declared anchors (renaming one gives exit 2, never exit 1): class
 ``falcon.asgi.ws.WebSocket`` with its public operations, the private enum
-``_WebSocketState`` (members HANDSHAKE/ACCEPTED/CLOSED), the ``send``/``receive``
+``_WebSocketState`` (members HANDSHAKE/ACCEPTED/CLOSED; further members are read from the class and classified by
+what the code does with them - see ``c17_helpers.WSModel.states``: a member recorded by ``close()``/the disconnect paths is
+one more way of being closed and every obligation stated for CLOSED is evaluated for it; a failing one is laid at the
+door of the guard(s) that tell CLOSED and the new member apart; a member nobody writes is not a state), the ``send``/``receive``
 parameters of ``WebSocket.__init__`` (ASGI names), ``_BufferedReceiver`` and its
 public flag ``client_disconnected``, ``App._handle_websocket``,
 ``App._handle_exception`` (parameter ``ws`` - the documented handler keyword),
@@ -160,22 +163,31 @@ def r1_operations(run):
                 fail_or_blame(f, cell, '%s: %s' % (tag, bad[0]), '%s [%s] %s' % (f.name, _cellstr(cell), bad[0].split(' at ')[0]),
                               [bad[0]], 'a responder calling ws.%s() with the connection in state %s' % (f.name, _cellstr(cell)))
             # (b) wrong state -> documented error, never a silent success
-            expect = None
+            expects = None
             if kind in ('send', 'receive'):
                 if cell[0] == 'HANDSHAKE':
-                    expect = E_NOT_ALLOWED
+                    expects = (E_NOT_ALLOWED,)
+                elif cell[0] in extra_terminal:
+                    # an additional way of being closed: which of the two documented wrong-state errors it gets is a decision of the
+                    # patch that introduced it; that the operation is refused is not
+                    expects = (E_DISCONNECTED, E_NOT_ALLOWED)
                 elif cell[0] in terminal or (kind == 'send' and cell[1]):
-                    expect = E_DISCONNECTED
+                    expects = (E_DISCONNECTED,)
             elif kind == 'accept' and cell[0] != 'HANDSHAKE':
-                expect = E_NOT_ALLOWED
-            if expect is not None:
+                expects = (E_NOT_ALLOWED,)
+            if expects is not None:
                 classes = {q for (q, _c, _f, _n) in r.raises}
-                stray = sorted(c for c in classes if c not in ARG_ERRORS and c != expect and p.is_subclass(c, expect) is not True)
+
+                def documented(c):
+                    return any(c == e or p.is_subclass(c, e) is True for e in expects)
+
+                stray = sorted(c for c in classes if c not in ARG_ERRORS and not documented(c))
                 unread = [c for c in stray if c.startswith('?')]
-                if unread:
+                if unread and not r.exits and len(unread) == len(stray) and any(documented(c) for c in classes):
+                    # the verdict would hinge on an exception whose class the model cannot read
                     raise UnknownIdiom('%s: %s raises %s, whose class is not understood' % (f.qual, tag, unread[0][1:]))
-                good = not r.exits and expect in {c for c in classes} | {c for c in classes if p.is_subclass(c, expect) is True} and not stray
-                what = '%s: cannot complete normally and raises %s' % (tag, expect.rsplit('.', 1)[1])
+                good = not r.exits and any(documented(c) for c in classes) and not stray
+                what = '%s: cannot complete normally and raises %s' % (tag, ' or '.join(e.rsplit('.', 1)[1] for e in expects))
                 if good:
                     run.ok(what, f.loc(), '%s [%s] wrong-state error' % (f.name, _cellstr(cell)))
                 else:
